@@ -12,7 +12,17 @@ out.append("## 12. As-built claim per property (what the registered checks decid
 out.append("Every claim is *bounded*: it holds for all inputs within the bounds of the\nharnesses listed in appendix D and says nothing outside them. Measured wall\ntimes of the quick commands on the unchanged tree are in `evidence/<id>.json`.\n")
 for pid in sorted(claims['claimed']):
     c = claims['claimed'][pid]
-    out.append("**%s.** %s\n\n*Assumed / trusted:* %s\n" % (pid, c['text'], c['note']))
+    ev = {}
+    try:
+        ev = json.load(open(V + '/evidence/%s.json' % pid))
+    except Exception:
+        pass
+    meas = ""
+    if ev:
+        cov = ev.get('coverage', {})
+        meas = "\n\n*Measured on the unchanged tree (%s tier, 16 cores):* %d harness runs, %d solver-decided checks, %d satisfied reachability witnesses, wall %.0f s (symbolic execution %.0f s + solver %.0f s of CPU)." % (
+            ev.get('tier'), len(cov.get('harnesses', [])), cov.get('evaluations', 0), cov.get('distinct_nontrivial', 0), ev.get('wall_s', 0), cov.get('symex_time_s', 0), cov.get('solver_time_s', 0))
+    out.append("**%s.** %s\n\n*Assumed / trusted:* %s%s\n" % (pid, c['text'], c['note'], meas))
 for pid, reason in sorted(claims['not_applicable'].items()):
     out.append("**%s — not applicable.** %s\n" % (pid, reason))
 out.append("\n## 13. Seeded changes (independent sub-agents) and what caught them\n")
